@@ -107,20 +107,24 @@ Lemma va_read_bs rf rp fo po k sx h m sh : Forall byte sx -> (forall t s2, sx <>
     ((st = SBDF_OK /\ sh' = VCell L 0 /\ Forall byte s' /\ exists blk newb, h' = h ++ Some blk :: newb /\
         forall hp : heap, List.length hp = L -> va_rel m' (hp ++ Some blk :: newb) L (hp ++ None :: nones (List.length newb)))
      \/ (st < 0 /\ sh' = VNull /\ exists j, h' = h ++ nones j)) /\
-    (st = SBDF_OK -> match Va.va_read false None sx with Ok (_, sM) => s' = sM | Err _ => False end).
+    (st = SBDF_OK -> match Va.va_read false None sx with Ok (_, sM) => s' = sM | Err _ => False end) /\
+    (k < 0 -> match Va.va_read false None sx with Ok (_, sM) => st = SBDF_OK | Err e => st = e end).
 Proof.
   intros Hs H3 L.
-  destruct (rvi_read_bs bv o rf rp fo po k sx h m VNull Hs H3) as (st & l' & sh' & k' & s' & h' & m' & B & Pf & _ & Out & PP).
+  destruct (rvi_read_bs bv o rf rp fo po k sx h m VNull Hs H3) as (st & l' & sh' & k' & s' & h' & m' & B & Pf & MT & Out & PP).
+  assert (MT' : k < 0 -> match Va.va_read false None sx with Ok (_, sM) => st = SBDF_OK | Err e => st = e end).
+  { intros Hk. specialize (MT Hk). destruct (Va.va_read false None sx) as [[va sM]|eM]; [destruct MT as (MT & _); exact MT|exact MT]. }
+  clear MT.
   destruct l'. revert B. unrv. intros B.
   destruct Out as [(-> & -> & Hb' & blk & newb & -> & VR)|(Hneg & j & ->)].
-  - exists SBDF_OK. do 6 eexists. split; [|split; [exact Pf|split; [left; split; [reflexivity|split; [reflexivity|split; [exact Hb'|exists blk, newb; split; [reflexivity|exact VR]]]]|exact PP]]].
+  - exists SBDF_OK. do 6 eexists. split; [|split; [exact Pf|split; [left; split; [reflexivity|split; [reflexivity|split; [exact Hb'|exists blk, newb; split; [reflexivity|exact VR]]]]|split; [exact PP|exact MT']]]].
     cbn [fbody prog_sbdf_va_read]. unfold vrd, fr. cbn [app].
     eapply bsE_seq; [eapply bsE_decl0; evk; reflexivity|].
     eapply bsE_seq; [eapply bsE_if; [evk; reflexivity|reflexivity|apply bsE_skip]|].
     eapply bsE_seq; [eapply bsE_expr; evk; reflexivity|].
     eapply bsE_seq; [eapply bsE_call; [reflexivity|evk; reflexivity|reflexivity|exact B|evk; reflexivity]|].
     eapply bsE_seq; [eapply bsE_if; [evk; reflexivity|reflexivity|apply bsE_skip]|]. eapply bsE_return. evk. reflexivity.
-  - exists st. do 6 eexists. split; [|split; [exact Pf|split; [right; split; [exact Hneg|split; [reflexivity|exists j; reflexivity]]|intros X; unfold SBDF_OK in X; lia]]].
+  - exists st. do 6 eexists. split; [|split; [exact Pf|split; [right; split; [exact Hneg|split; [reflexivity|exists j; reflexivity]]|split; [intros X; unfold SBDF_OK in X; lia|exact MT']]]].
     cbn [fbody prog_sbdf_va_read]. unfold vrd, fr. cbn [app].
     eapply bsE_seq; [eapply bsE_decl0; evk; reflexivity|].
     eapply bsE_seq; [eapply bsE_if; [evk; reflexivity|reflexivity|apply bsE_skip]|].
@@ -209,7 +213,9 @@ Lemma cs_read_bs so k sx h m : Forall byte sx ->
         exists blk newb, h' = h ++ Some [VCell (S L) 0; VInt 0; VInt 0; VInt 0; VInt 1] :: Some blk :: newb /\
           (forall hp : heap, List.length hp = S L -> va_rel m' (hp ++ Some blk :: newb) (S L) (hp ++ None :: nones (List.length newb))) /\
           exists s1 va s2, sec_expect SBDF_COLUMNSLICE_SECTIONID sx = Ok (tt, s1) /\ Va.va_read false None s1 = Ok (va, s2) /\ read_int32 false s2 = Ok (0, s'))
-     \/ (st < 0 /\ c_so l' = so /\ exists j, h' = h ++ nones j)).
+     \/ (st < 0 /\ c_so l' = so /\ exists j, h' = h ++ nones j)) /\
+    (* without allocation failures: whenever the model's readers get through section marker, values and a zero count, the call succeeds *)
+    (k < 0 -> (exists s1 va s2 s3, sec_expect SBDF_COLUMNSLICE_SECTIONID sx = Ok (tt, s1) /\ Va.va_read false None s1 = Ok (va, s2) /\ read_int32 false s2 = Ok (0, s3)) -> st = SBDF_OK).
 Proof.
   intros Hs NB CNT L.
   pose proof (sec_expect_bs2 fv SBDF_COLUMNSLICE_SECTIONID VUndef VUndef k sx h m I Hs ltac:(unfold SBDF_COLUMNSLICE_SECTIONID, int_min, int_max; lia)) as SE.
@@ -217,7 +223,7 @@ Proof.
   2: { (* no column slice section here *)
     destruct SE as (e' & v' & s' & SE).
     assert (Hneg : st0 < 0) by (apply (neg_sec_expect SBDF_COLUMNSLICE_SECTIONID sx st0 ESE)).
-    exists st0. eexists (Build_crl _ _ _ _ _ _ _ _ _ _). do 4 eexists. split; [|split; [exists []; now rewrite app_nil_r|right; split; [exact Hneg|split; [reflexivity|exists 0%nat; cbn; now rewrite app_nil_r]]]].
+    exists st0. eexists (Build_crl _ _ _ _ _ _ _ _ _ _). do 4 eexists. split; [|split; [exists []; now rewrite app_nil_r|split; [right; split; [exact Hneg|split; [reflexivity|exists 0%nat; cbn; now rewrite app_nil_r]]|intros _ (x1 & _ & _ & _ & X & _); discriminate X]]].
     apply cs_read_ret. unfold cs_body. cbn [fbody prog_sbdf_cs_read]. uncr.
     eapply bsE_seq; [eapply bsE_decl0; evk; reflexivity|].
     eapply bsE_seq; [eapply bsE_seq; [eapply bsE_decl0; evk; reflexivity|eapply bsE_seq; [eapply bsE_decl0; evk; reflexivity|eapply bsE_decl0; evk; reflexivity]]|].
@@ -240,14 +246,14 @@ Proof.
   destruct (k =? 0) eqn:Ek0.
   { (* the slice cannot be allocated *)
     assert (k = 0) by lia. subst k.
-    exists SBDF_ERROR_OUT_OF_MEMORY. eexists (Build_crl _ _ _ _ _ _ _ _ _ _). do 4 eexists. split; [|split; [exists []; now rewrite app_nil_r|right; split; [reflexivity|split; [reflexivity|exists 0%nat; cbn; now rewrite app_nil_r]]]].
+    exists SBDF_ERROR_OUT_OF_MEMORY. eexists (Build_crl _ _ _ _ _ _ _ _ _ _). do 4 eexists. split; [|split; [exists []; now rewrite app_nil_r|split; [right; split; [reflexivity|split; [reflexivity|exists 0%nat; cbn; now rewrite app_nil_r]]|intros X; lia]]].
     apply cs_read_ret. unfold cs_body. cbn [fbody prog_sbdf_cs_read]. apply HEAD. uncr.
     eapply bsE_seq; [eapply bsE_expr; evk; chk7; evk; reflexivity|].
     eapply bsE_seq_ret. eapply bsE_if; [evk; reflexivity|reflexivity|]. eapply bsE_return. evk. chk7. reflexivity. }
   assert (Hk : k <> 0) by lia.
   set (h0 := h ++ [Some [VInt 0; VInt 0; VInt 0; VInt 0; VInt 1]]).
   assert (HL0 : List.length h0 = S L) by (unfold h0; rewrite app_length; cbn; lia).
-  destruct (va_read_bs rf ROut fo 0 (dec k) s1 h0 m VNull Hs1 (NB s1 eq_refl)) as (st1 & e1 & sh1 & k2 & s2 & h2 & m2 & BV & Pf1 & Out1 & PP1).
+  destruct (va_read_bs rf ROut fo 0 (dec k) s1 h0 m VNull Hs1 (NB s1 eq_refl)) as (st1 & e1 & sh1 & k2 & s2 & h2 & m2 & BV & Pf1 & Out1 & PP1 & MT1).
   rewrite HL0 in Out1.
   (* the allocation and the owned flag *)
   assert (PRE : forall Y oo, bsE prog_env Y (crf fv ov (Build_crl VUndef (VInt SBDF_OK) VUndef (VCell L 0) VUndef VUndef VUndef VUndef (VInt 0) so) (dec k) s1 h0 m) oo ->
@@ -282,7 +288,9 @@ Proof.
     pose proof (cs_destroy_fresh_bs k2 s2 m2 hX L VNull hX h3 VUndef (NTH _ _) ltac:(left; split; reflexivity) eq_refl
                   ltac:(unfold hX, h3, L; erewrite cell_set_mid; [reflexivity|lia|reflexivity]) (NTH _ _)) as D.
     unfold h3 in D. rewrite KL in D. unfold fr in D. cbn [app] in D.
-    exists st1. eexists (Build_crl _ _ _ _ _ _ _ _ _ _). do 4 eexists. split; [|split; [exact Pf1|right; split; [exact Hneg1|split; [reflexivity|exists (S j); reflexivity]]]].
+    exists st1. eexists (Build_crl _ _ _ _ _ _ _ _ _ _). do 4 eexists. split; [|split; [exact Pf1|split; [right; split; [exact Hneg1|split; [reflexivity|exists (S j); reflexivity]]|]]].
+    2: { intros Hk0 (x1 & xva & x2 & x3 & X1 & X2 & _). assert (x1 = s1) by congruence. subst x1.
+         assert (Dk : dec k < 0) by (unfold dec; replace (0 <? k) with false by lia; exact Hk0). specialize (MT1 Dk). rewrite X2 in MT1. unfold SBDF_OK in MT1. lia. }
     eapply cs_read_brk.
     - unfold cs_body. cbn [fbody prog_sbdf_cs_read]. apply HEAD. apply PRE.
       eapply bsE_seq_brk. eapply bsE_seq; [exact T3|]. uncr. eapply bsE_if; [evk; reflexivity|cbn [truth]; replace (st1 =? 0) with false by lia; reflexivity|apply bsE_break].
@@ -313,7 +321,8 @@ Proof.
   2: { (* the property count cannot be read *)
     destruct R as (c' & s' & R). pose proof (read_int32_err s2 e ER). subst e.
     specialize (DY k2 s'). unfold fr in DY. cbn [app] in DY.
-    exists SBDF_ERROR_IO. eexists (Build_crl _ _ _ _ _ _ _ _ _ _). do 4 eexists. split; [|split; [exact Pf1|right; split; [reflexivity|split; [reflexivity|eexists; reflexivity]]]].
+    exists SBDF_ERROR_IO. eexists (Build_crl _ _ _ _ _ _ _ _ _ _). do 4 eexists. split; [|split; [exact Pf1|split; [right; split; [reflexivity|split; [reflexivity|eexists; reflexivity]]|]]].
+    2: { intros _ (x1 & xva & x2 & x3 & X1 & X2 & X3). assert (x1 = s1) by congruence. subst x1. rewrite MV in X2. assert (x2 = s2) by congruence. subst x2. rewrite ER in X3. discriminate X3. }
     eapply cs_read_brk.
     - unfold cs_body. cbn [fbody prog_sbdf_cs_read]. apply HEAD. apply PRE.
       eapply bsE_seq; [eapply bsE_seq; [exact T3|uncr; eapply bsE_if; [evk; reflexivity|reflexivity|apply bsE_skip]]|].
@@ -327,7 +336,8 @@ Proof.
   destruct (v <? 0) eqn:Eneg.
   { (* a negative property count *)
     specialize (DY k2 s3). unfold fr in DY. cbn [app] in DY.
-    exists SBDF_ERROR_INVALID_SIZE. eexists (Build_crl _ _ _ _ _ _ _ _ _ _). do 4 eexists. split; [|split; [exact Pf1|right; split; [reflexivity|split; [reflexivity|eexists; reflexivity]]]].
+    exists SBDF_ERROR_INVALID_SIZE. eexists (Build_crl _ _ _ _ _ _ _ _ _ _). do 4 eexists. split; [|split; [exact Pf1|split; [right; split; [reflexivity|split; [reflexivity|eexists; reflexivity]]|]]].
+    2: { intros _ (x1 & xva & x2 & x3 & X1 & X2 & X3). assert (x1 = s1) by congruence. subst x1. rewrite MV in X2. assert (x2 = s2) by congruence. subst x2. rewrite ER in X3. assert (v = 0) by congruence. lia. }
     eapply cs_read_brk.
     - unfold cs_body. cbn [fbody prog_sbdf_cs_read]. apply HEAD. apply PRE.
       eapply bsE_seq; [eapply bsE_seq; [exact T3|uncr; eapply bsE_if; [evk; reflexivity|reflexivity|apply bsE_skip]]|].
@@ -339,7 +349,7 @@ Proof.
       eapply bsE_return. evk. reflexivity. }
   (* no properties: the slice is handed out *)
   assert (v = 0) by lia. subst v.
-  exists SBDF_OK. eexists (Build_crl _ _ _ _ _ _ _ _ _ _). do 4 eexists. split; [|split; [exact Pf1|left; split; [reflexivity|split; [reflexivity|]]]].
+  exists SBDF_OK. eexists (Build_crl _ _ _ _ _ _ _ _ _ _). do 4 eexists. split; [|split; [exact Pf1|split; [left; split; [reflexivity|split; [reflexivity|]]|intros _ _; reflexivity]]].
   2: { exists blk, newb. split; [reflexivity|]. split; [exact VR|]. exists s1, va, s2. split; [reflexivity|]. split; [exact MV|exact ER]. }
   eapply cs_read_brk.
   - unfold cs_body. cbn [fbody prog_sbdf_cs_read]. apply HEAD. apply PRE.
@@ -391,11 +401,12 @@ Theorem cs_read_source rf rp fo po k sx m h : Forall byte sx ->
           forall k' s', exists f1, forall g, (f1 <= g)%nat -> exists fin2,
             callC prog_env g prog_sbdf_cs_destroy [VCell (List.length h) 0] (inb fin) k' s' h' = OReturn (VInt 0) fin2 /\
             inb fin2 = inb fin /\ lookup cells_var (vars fin2) = Some (VHeap (h ++ nones (S (S nb)))))
-     \/ (st < 0 /\ lookup "*out" (vars fin) = Some VUndef /\ exists j, lookup cells_var (vars fin) = Some (VHeap (h ++ nones j)))).
+     \/ (st < 0 /\ lookup "*out" (vars fin) = Some VUndef /\ exists j, lookup cells_var (vars fin) = Some (VHeap (h ++ nones j)))) /\
+    (k < 0 -> (exists s1 va s2 s3, sec_expect SBDF_COLUMNSLICE_SECTIONID sx = Ok (tt, s1) /\ Va.va_read false None s1 = Ok (va, s2) /\ read_int32 false s2 = Ok (0, s3)) -> st = SBDF_OK).
 Proof.
   intros Hs NB CNT.
-  destruct (cs_read_bs (VInt 0) [] rf rp fo po VUndef k sx h m Hs NB CNT) as (st & l' & k' & s' & h' & m' & B & Pf & Out).
-  destruct (bsE_sound _ _ _ _ B) as (f0 & F). exists f0. intros f Hf. exists st. eexists. split; [apply F; exact Hf|]. split; [exact Pf|].
+  destruct (cs_read_bs (VInt 0) [] rf rp fo po VUndef k sx h m Hs NB CNT) as (st & l' & k' & s' & h' & m' & B & Pf & Out & MOK).
+  destruct (bsE_sound _ _ _ _ B) as (f0 & F). exists f0. intros f Hf. exists st. eexists. split; [apply F; exact Hf|]. split; [exact Pf|]. split; [|exact MOK].
   destruct l'. cbn [c_so] in Out.
   destruct Out as [(-> & -> & blk & newb & -> & VR & s1 & va & s2 & E1 & E2 & E3)|(Hn & -> & j & ->)].
   - left. split; [reflexivity|]. split; [reflexivity|]. split; [exists s1, va, s2, s'; repeat split; assumption|].
